@@ -25,6 +25,7 @@ type Sess struct {
 
 	// while capturing, operations are recorded instead of written (concurrent rounds emit them afterwards)
 	mute           bool // dry runs: nothing is written to the trace
+	listExtra      string // query parameters added to every object listing (e.g. encoding-type=url, which the server ignores)
 	everEnabled    bool // versioning was enabled at some point: listed version ids are real ids from then on
 	wireNullMarker bool // ListVersions: send version-id-marker=null where the trace says "no version id marker"
 	capMu          sync.Mutex
@@ -448,6 +449,9 @@ func (s *Sess) List(q ListReq) ListResp {
 		if maxk > 1000 {
 			maxk = 1000
 		}
+	}
+	if s.listExtra != "" {
+		ps = append(ps, s.listExtra)
 	}
 	path := "/" + pathEscape(q.Bucket)
 	if len(ps) > 0 {
